@@ -79,6 +79,17 @@ CHECKS = {
             "hashbrown is trusted. Canonical state = entries+stored hashes+capacity+index presence (index content is "
             "checked, not hashed, because the invariant pins it).",
             "DESIGN.md#c11"),
+    "C12": ("exploration",
+            "complete cross product container x iterating construct x discovered mutator x exit x level, on the real evaluator; fails()-probe oracle + effect-on-fresh-container differential",
+            "Containers {list, dict, set} x every mutator DISCOVERED from dir(value) x argument catalogue + statement forms "
+            "(57 mutators) x {for, nested for over the same value, for inside for, 12 expression constructs: comprehension "
+            "clauses, dict comprehension, sorted/min/max key=, map, filter, any/all} x exits {exhaustion, break, continue, "
+            "return, error, error three frames down, error in callback} x {in def, module level} + 23 release-only "
+            "constructs: during iteration each mutation attempt must fail and leave the value intact; afterwards - in the "
+            "same function, in the caller, and in a second eval_module after the host caught the error - it must succeed "
+            "with the effect it has on a fresh container.",
+            "One known finding (release after a propagating error) is listed in known-findings.json.",
+            "DESIGN.md#c12"),
 }
 
 NOT_YET = {
